@@ -45,8 +45,8 @@ def slab_start(geo, D):
 def cons_spec(name, geo, D):
     if name == "slab":
         return ["slab", snapped_x0_coord0(geo, D), 1e-7]
-    if name in ("half", "half_r"):
-        return P.half_for("in", geo, D, real=name.endswith("_r"))
+    if name in ("half", "half_r", "half_c"):
+        return P.half_for("in", geo, D, real=True if name.endswith("_r") else ("col" if name.endswith("_c") else False))
     return name
 
 
@@ -99,6 +99,8 @@ def run(ctx):
     base = [job(D, g, m, c, s) for D in Ds for g in ("lin", "log") for m in ("det", "decl") for c in ("half", "ball", "slab", "annulus") for s in seeds]
     base += [job(D, g, "det", c, seeds[0], target=t) for D in Ds for g in ("lin", "log") for c in ("half", "ball", "annulus") for t in ("sphere_corner", "sphere_out")]
     base += [job(D, "lin", m, c, seeds[0], x0="absent") for D in Ds for m in ("det", "decl") for c in ("ball",)]
+    # constraints returning a column vector (N, 1)
+    base += [job(D, g, m, c, seeds[0], target="sphere_out") for D in Ds for g in ("lin", "log2") for m in ("det", "decl") for c in ("half_c", "ball_c", "annulus_c")]
     # real-valued constraints (amount of violation; small positive values near the boundary) and further geometries
     base += [job(D, g, m, c, seeds[0], target=t) for D in Ds for g in ("lin", "log2", "lin2") for m in ("det", "decl") for c in ("half_r", "ball_r", "annulus_r")
              for t in (("adv", "sphere_out") if m == "det" else ("sphere_out",))]
